@@ -119,7 +119,7 @@ class ClassWorld:
                     ('ecblock', 1.2),
                     ('watchnew', 1), ('cparam', 2.5), ('poison', 1.5)],
             'C14': [('new', 3), ('newk', 2), ('kset', 5), ('kupdate', 2), ('cset', 3), ('rset', 2), ('ec_open', 3), ('ec_close', 2.5), ('ec_close_first', 1), ('ec_raise', 1.5),
-                    ('touch', 1.5), ('iset', 2), ('nameset', 1), ('kref', 1.5), ('srcset', 1.5), ('newkref', 1), ('srcset_fail', 1)],
+                    ('touch', 1.5), ('iset', 2), ('nameset', 1), ('kref', 1.5), ('srcset', 1.5), ('newkref', 1), ('srcset_fail', 1), ('srcset_rebind', 1)],
         }[prop]
         depth = 0
         for _ in range(n_ops):
@@ -844,6 +844,31 @@ class _Run:
             if self.ref_src is None:
                 return
             self.set_src(self.new_list(), fail=(k == 'srcset_fail'))
+        elif k == 'srcset_rebind':
+            # a watcher of the linked constant, called because the source changed, tries to rebind the object's name (a
+            # constant): an ordinary attempt outside edit_constant
+            linked = [j for j, m_ in enumerate(self.im) if m_.get('linked_k')]
+            if self.ref_src is None or not linked or any(ii == linked[0] for _, ii in self.ec):
+                return
+            o = self.insts[linked[0]]
+            seen = []
+
+            def rebinder(*events):
+                try:
+                    o.name = f"n{self.counter}"
+                    seen.append('accepted')
+                except TypeError:
+                    seen.append('rejected')
+            h = o.param.watch(rebinder, ['k'])
+            try:
+                self.set_src(self.new_list())
+            finally:
+                o.param.unwatch(h)
+            if 'accepted' in seen:
+                self.viol('C14.name_constant', f"a watcher of I{linked[0]}.k, called while the constant follows its source, could rebind I{linked[0]}.name "
+                                               f"outside edit_constant")
+            if seen:
+                self.out.stats['probe.rebind_attempt_from_watcher_during_sync'] += 1
         elif k == 'newkref':
             # a constant linked to a reference by its constructor (allowed there); it follows the source from then on
             if 'k' in self.visible(ci) and not any(m_.get('linked_k') for m_ in self.im) and len(self.insts) < 5:
